@@ -425,7 +425,10 @@ pub fn check(w: &Walk) -> (Facts, Vec<Finding>) {
         if let Err(msg) = check_node(n, &mut f) {
             // (fixed and no longer recognised: outer-join-constant-of-null-padded-side, topk-aggregate-keeps-input-ordering —
             // their cases are plain regressions now)
-            let sig = if is_ordering(&msg) && walk::subtree_has(&n.plan, &|p| p.name().contains("WindowAggExec") && { let d = walk::one_line_full(p.as_ref()); d.contains("wdw=[count(") && !d.contains("UNBOUNDED PRECEDING") }) {
+            let sig = if msg.contains("declares the equivalence class") && walk::subtree_has(&n.plan, &|p| p.name() == "FilterExec" && walk::one_line_full(p.as_ref()).contains(" / ")) {
+                // known finding: below a filter `a / 2 = 0` the class [a, a / 2] is declared although a = 1, a / 2 = 0
+                Some("filter-equality-class-joins-expression-and-operand".to_string())
+            } else if is_ordering(&msg) && walk::subtree_has(&n.plan, &|p| p.name().contains("WindowAggExec") && { let d = walk::one_line_full(p.as_ref()); d.contains("wdw=[count(") && !d.contains("UNBOUNDED PRECEDING") }) {
                 // known finding: a sliding-frame count() is declared set-monotonic (its output "sorted") although rows leave the frame
                 Some("sliding-window-count-declared-monotonic".to_string())
             } else if is_ordering(&msg) && msg.contains("Null") && walk::subtree_has(&n.plan, &|p| p.name().contains("WindowAggExec")) {
